@@ -1407,8 +1407,7 @@ theorem Alloc.enter_live_empty {m : Model} {p : Params} {s : St} (hp : p.initSta
     simp only [enter, initProject, hp, if_true]
     cases p.initLog <;> rfl
   rw [e]
-  simp only [initComps, compCheck, chkReady, pert, initLive, tabN_eq]
-  exact ⟨fun _ => rfl, fun _ => rfl, fun _ => rfl, fun _ => rfl⟩
+  simp [initComps, compCheck, chkReady, pert, initLive]
 
 theorem AllocInv_of_empty {m : Model} {l : Live}
     (h1 : ∀ t, l.allocW t = []) (h2 : ∀ t, l.allocF t = [])
